@@ -136,15 +136,10 @@ def run(tier):
         keep.append(r)
     run.notes["skipped_box_too_large"] = skipped
     run.count(len(keep))
-    tp = os.path.join(d, "tensor.ndjson")
-    dump_ndjson(tp, keep)
-    res = tlc.run("CellTrace.tla", "CellTrace.cfg", env={"TRACE_FILE": tp}, timeout=3000)
-    if res.distinct != 2 * len(keep):
-        raise MachineryError("CellTrace consumed %d of %d records" % (res.distinct // 2, len(keep)))
+    res, fails = tlc.run_chunks("CellTrace.tla", "CellTrace.cfg", keep, os.path.join(d, "tensor"), timeout=3000)
     run.add_model(res, "CellTrace(tensor): %d recorded calls, each judged against Lattice!Mic2" % len(keep))
     run.traces(len(keep))
-    for tid, clause in res.printed("FAIL"):
-        r = keep[tid - 1]
+    for r, (clause,) in fails:
         if clause.startswith("HARNESS"):
             raise MachineryError("harness setup rejected by the spec (%s) on %s" % (clause, r["cfg"]))
         key = "C10 clause=%s cell=%s x%d pbc=%s c2x2=%s pos=%s" % (clause, r["cfg"]["cellname"], r["cfg"]["mult"], r["pbc"], r["c2x2"], r["pos"])
